@@ -763,19 +763,33 @@ def case_hist(ops):
     }
 
 
-def shrink(patch, root, permits, ops, rule, model_res_for):
-    """Greedy: drop ops while the oracle still reports `rule`."""
+def shrink(patch, root, permits, ops, rule, model_res_for, budget_s=4.0):
+    """Greedy: first cut the sequence after the first op at which `rule` fails,
+    then drop ops while the oracle still reports `rule` (bounded time)."""
+    import time
+    t0 = time.time()
     cur = list(ops)
+
+    def fails(cand):
+        try:
+            _, bad, _ = run_impl(patch, root, permits, cand, model_res_for(permits, cand))
+        except Exception:
+            return False
+        return any(b[0] == rule for b in bad)
+    lo = 1
+    while lo < len(cur) and time.time() - t0 < budget_s:      # shortest failing prefix
+        if fails(cur[:lo]):
+            cur = cur[:lo]
+            break
+        lo += 1 if len(cur) < 40 else max(1, len(cur) // 20)
     changed = True
-    while changed and len(cur) > 1:
+    while changed and len(cur) > 1 and time.time() - t0 < budget_s:
         changed = False
         for k in range(len(cur) - 1, -1, -1):
+            if time.time() - t0 >= budget_s:
+                break
             cand = cur[:k] + cur[k + 1:]
-            try:
-                _, bad, _ = run_impl(patch, root, permits, cand, model_res_for(permits, cand))
-            except Exception:
-                continue
-            if any(b[0] == rule for b in bad):
+            if fails(cand):
                 cur, changed = cand, True
                 break
     return cur
